@@ -553,14 +553,7 @@ impl Node {
             }
         }
 
-        //a deleted node must not come back: ignore incoming versions covered by a local deletion log entry
-        let mut deleted_stmt = conn.prepare_cached(
-            "SELECT 1 FROM _node_deletion_log WHERE id = ? AND mdate >= ? LIMIT 1",
-        )?;
         for node_id in node_ids.drain() {
-            if deleted_stmt.exists((&node_id.id, &node_id.mdate))? {
-                continue;
-            }
             let node_to_insert = NodeToInsert {
                 id: node_id.id,
                 node: None,
@@ -578,6 +571,28 @@ impl Node {
         }
 
         Ok(result)
+    }
+
+    //
+    // Same as filter_existing for the synchronisation of a room:
+    // a node deleted in this room must not come back, incoming versions covered by a deletion log entry of the room are ignored
+    //
+    pub fn filter_existing_in_room(
+        node_ids: &mut HashSet<NodeIdentifier>,
+        room_id: &Uid,
+        conn: &Connection,
+    ) -> Result<Vec<NodeToInsert>> {
+        let mut deleted_stmt = conn.prepare_cached(
+            "SELECT 1 FROM _node_deletion_log WHERE room_id = ? AND id = ? AND mdate >= ? LIMIT 1",
+        )?;
+        let mut deleted: HashSet<Uid> = HashSet::new();
+        for node_id in node_ids.iter() {
+            if deleted_stmt.exists((room_id, &node_id.id, &node_id.mdate))? {
+                deleted.insert(node_id.id);
+            }
+        }
+        node_ids.retain(|node_id| !deleted.contains(&node_id.id));
+        Self::filter_existing(node_ids, conn)
     }
 
     pub fn filtered_by_room(
